@@ -170,6 +170,24 @@ _r7 = {
 }
 for _k, _v in _r7.items():
     _borrow[_k] = (_borrow.get(_k, "") + " " + _v).strip()
+# rules added after the eighth seeding round (DESIGN.md 10.13)
+_r8 = {
+ "C01": "Also evaluates C02.R6; a single write always stores its point and hands it to the coarser levels.",
+ "C02": "Also: the batch writer hands to the coarser levels exactly the aligned points it wrote; the generated name table calls the value of each method constant by that constant's name.",
+ "C03": "Also: of two points of one time the later replaces the earlier unconditionally.",
+ "C06": "Also evaluates C07.R3 (the pairwise layout rules, no stricter than the reference).",
+ "C07": "Also: AggregationMethod is at least 32 bits wide, so the 4-byte header field is validated whole.",
+ "C10": "Also evaluates the globItemsLocal obligations of C08.R7.",
+ "C11": "Also evaluates the globItemsLocal obligations of C08.R7; no two options of a Parse store into the same field.",
+ "C12": "Also: on both ends of the binary protocol the per-archive loop has no way round its codec call; the clients decode ReadAll of the response body itself.",
+ "C14": "Also evaluates the upper-bound obligations of C15.R1.",
+ "C15": "Also evaluates the TimeSeries.Points obligation of C18.R3; in Open nothing is handed a header-derived size before the file-size test passed.",
+ "C16": "Also evaluates the dest-path obligation of C11.R4 and the layout-sides obligation of C08.R2.",
+ "C17": "Also: nothing reachable from a handler changes process-wide state (working directory, environment, umask, log defaults).",
+ "C19": "Also (C19.R6): the String methods of the flag values branch on the nil pointer only.",
+}
+for _k, _v in _r8.items():
+    _borrow[_k] = (_borrow.get(_k, "") + " " + _v).strip()
 for _k, _v in _borrow.items():
     _extra[_k] = (_extra.get(_k, "") + " " + _v).strip()
 _re = "Every property also evaluates <id>.RE: no failure is turned into success in the functions reachable from its entry points."
